@@ -448,11 +448,15 @@ def action_communities(actions):
             ext.append(struct.pack('!H', 0x8007) + bytes(5) + bytes([bits]))
         elif name == 'redirect-as':
             asn, num = act[1], act[2]
+            if asn > 0xFFFFFFFF:
+                raise Unencodable('redirect-as-number')
             if asn > 0xFFFF:
                 if num > 0xFFFF:
                     raise Unencodable('redirect-as4-local-admin')
                 ext.append(struct.pack('!HLH', 0x8208, asn, num))
             else:
+                if num > 0xFFFFFFFF:
+                    raise Unencodable('redirect-as2-local-admin')
                 ext.append(struct.pack('!HHL', 0x8008, asn, num))
         elif name == 'redirect-ip':
             ext.append(struct.pack('!H', 0x8108) + ipaddress.IPv4Address(act[1]).packed + struct.pack('!H', act[2]))
